@@ -216,7 +216,9 @@ where
     type Stream = Self;
 
     fn into_parts(self) -> (Vector<VectorDiffContainerStreamElement<S>>, Self::Stream) {
-        (self.buffered_vector.clone(), self)
+        // The initial values are the current view, not the buffered source.
+        let values = self.buffered_vector.clone().truncate_from_end(self.limit);
+        (values, self)
     }
 }
 
